@@ -575,7 +575,20 @@ impl<'a> Worker<'a> {
         if o.ok() && only_meta_faults(&o) {
             self.stats.probe("metadata-fault:tolerated(not compared)");
         } else if o.ok() {
-            if let Some(d) = success_differs(&g[k], &o) {
+            // meta.ignore_outputs: files that are a progress channel rather than a product of the
+            // command (extract's "exported ..." lines on a redirected stdout)
+            let ignore: Vec<String> = case.meta.get("ignore_outputs").and_then(|x| x.as_array()).map(|a| a.iter().filter_map(|x| x.as_str().map(String::from)).collect()).unwrap_or_default();
+            let (gk, ok_) = if ignore.is_empty() {
+                (g[k].clone(), o.clone())
+            } else {
+                let strip = |x: &Outcome| {
+                    let mut y = x.clone();
+                    y.files.retain(|p, _| !ignore.contains(p));
+                    y
+                };
+                (strip(&g[k]), strip(&o))
+            };
+            if let Some(d) = success_differs(&gk, &ok_) {
                 let benign = plan_is_benign(&case.steps[k].plan);
                 v.push(Violation {
                     class: format!("{}:exit0-differs:{}:{}", if benign { "benign" } else { "failstop" }, cmd_kind(&case.steps[k]), file_role(&d)),
